@@ -65,7 +65,9 @@ type (
 
 // Parse parses a filename into a Token-tree
 func (p *renderState) Parse(file string) (*Token, error) {
-	b, err := ioutil.ReadFile(path.Join(p.path, file) + ".ast.json")
+	// join after appending the suffix: path.Join cleans the name, and a template whose file is called just
+	// ".ast.json" has a name ending in "/" (or the empty name), which must not turn into "<directory>.ast.json"
+	b, err := ioutil.ReadFile(path.Join(p.path, file+".ast.json"))
 
 	if err != nil {
 		return nil, errors.Errorf("Cannot read %q", file)
